@@ -112,13 +112,14 @@ class PDict:
             self.log.append(("merge", other, None))
             return
         if isinstance(other, PDict):
-            if other.base is not None or any(is_sym(e[1]) for e in other.log):
+            if other.base is not None:
                 if self.log or self.base is not None:
-                    raise Unsupported("update of a non-empty dict from a symbolic dict")
+                    raise Unsupported("update of a non-empty dict from a dict with symbolic initial content")
                 self.log = list(other.log)
                 self.base = other.base
                 return
-            for k, v in other.items():
+            # a finite dict (possibly with symbolic keys): entry by entry
+            for k, v in other._concrete_items():
                 self[k] = v
         elif hasattr(other, "keys"):
             for k in other.keys():
@@ -133,6 +134,10 @@ class PDict:
         d = PDict(base=self.base)
         d.log = list(self.log)
         return d
+
+    def clear(self):
+        self.log = []
+        self.base = None
 
     copy = __copy__
 
